@@ -688,14 +688,20 @@ def witness_fails(finding):
     return True
 
 
+def _fails_outside_known(fn, c):
+    """the case fails and not merely as an open known finding does (a shrunk case must fail for the same reason)"""
+    bad = fn(c)
+    return bad is not None and known_class(c, bad) is None
+
+
 def shrink_failure(evaluator, case):
     if evaluator in EVALS2:
         fn2, valid = EVALS2[evaluator]
-        return core.shrink(case, lambda c: bool(valid(c)) and fn2(c) is not None)
+        return core.shrink(case, lambda c: bool(valid(c)) and _fails_outside_known(fn2, c))
     fn = EVALS.get(evaluator)
     if fn is None:
         return case
-    return core.shrink(case, lambda c: table_valid(c) and c.get("via") in ("save_csv", "writer") and isinstance(c.get("bin"), bool) and isinstance(c.get("bom"), bool) and fn(c) is not None)
+    return core.shrink(case, lambda c: table_valid(c) and c.get("via") in ("save_csv", "writer") and isinstance(c.get("bin"), bool) and isinstance(c.get("bom"), bool) and _fails_outside_known(fn, c))
 
 
 def replay(rp):
